@@ -77,6 +77,9 @@ def strategies_for(n, variant):
                 else [[RT[k], {"CPU": 1}]]
         if variant == 6:
             ss = [[RT[k], {"CPU": 1}]] if k == 0 else [[RT[k], {"GPU": 1}]]
+        if variant == 7:
+            # a first task that needs the whole 2-CPU worker, small successors
+            ss = [[2, {"CPU": 2}]] if k == 0 else [[RT[k], {"CPU": 1}]]
         out.append(ss)
     return out
 
@@ -102,7 +105,10 @@ def progress_patterns(n, edges, cluster_key, strategies, now):
 
 def gen(policies, tier, seed=0, shapes=None, variants=(0, 1), clusters=("c2", "c1c1"),
         progress=("fresh", "running", "completed", "scheduled"), deadlines=("loose",),
-        opt_keys=None, now=3, max_n=3):
+        opt_keys=None, now=3, max_n=3, blocker=False):
+    """`blocker`: a task of another graph is running on the first worker (one CPU, five
+    more microseconds), so that a task needing the whole worker cannot be hosted *now*
+    while smaller ones can."""
     for n in range(1, max_n + 1):
         for sname, edges in SHAPES[n].items():
             if shapes is not None and sname not in shapes:
@@ -154,12 +160,21 @@ def gen(policies, tier, seed=0, shapes=None, variants=(0, 1), clusters=("c2", "c
                                     if pol in ("TSG", "TSC"):
                                         o["plan_ahead"] = min(2 * crit + n + 2, 9) \
                                             if pol == "TSG" else min(crit + 2, 6)
+                                    graphs = [g]
+                                    if blocker:
+                                        graphs = [g, {
+                                            "name": "Bk", "nodes": ["R"], "edges": [],
+                                            "strategies": [[[6, {"CPU": 1}]]],
+                                            "release": 0, "deadline": now + 40,
+                                            "progress": {"R": ["running", now - 1,
+                                                               "p0w0", 0]}}]
                                     yield {
                                         "policy": pol, "opts": o,
-                                        "cluster": CLUSTERS[ck], "graphs": [g],
+                                        "cluster": CLUSTERS[ck], "graphs": graphs,
                                         "now": now, "seed": seed,
                                         "tag": f"{sname}/v{variant}/{ck}/{pk}/{dk}/"
-                                               f"{pol}+{ok}",
+                                               f"{pol}+{ok}"
+                                               f"{'/blocker' if blocker else ''}",
                                     }
 
 
